@@ -18,9 +18,12 @@ TRUSTED = ["unicode-escape codec / unquote not modelled (texts with a backslash 
 ASSUMPTIONS = []
 
 UNITS = ["~0", "~1", "0", "1", "+", "-", "_", " ", "#", "é", "a", "9"]
-EXTRA_TOKENS = ["%41", "a%2Fb", "%7E0", "%", "", "01", "-1", "-0", "10", "1_0", "+1", " 1", "1 ", "#0", "#a", "~0a", "a~1b", "\U0001F600", "00", "9007199254740993"]
+EXTRA_TOKENS = ["%41", "a%2Fb", "%7E0", "%", "", "01", "-1", "-0", "10", "1_0", "+1", " 1", "1 ", "#0", "#a", "~0a", "a~1b", "\U0001F600", "00", "9007199254740993",
+                # an ASCII digit followed by decimal digits of other scripts (what `\\d` and int() accept and [0-9] does not), superscripts
+                "1٣", "-1٣", "٣", "1０", "1²", "²"]
 DOCS = [{"a": {"b": [1, 2]}, "0": "zero", "1": [10, 20, {"a": 5}], "": {"": 7}, "~": {"/": 8}, "/": 9, "+1": 1, "-1": [3],
-         "01": 4, " ": 5, "#": 6, "é": [0], "a/b": {"m~n": 1}},
+         "01": 4, " ": 5, "#": 6, "é": [0], "a/b": {"m~n": 1},
+         "1٣": 14, "13": [15], "10": 16, "1０": 17},
         [[0, 1, [2, 3]], {"a": [4]}, "s", 5],
         {"0": [{"0": [1]}]},
         # members named like the non-standard key tokens NEXT TO the members those tokens would name
